@@ -160,3 +160,70 @@ Proof.
   split; [reflexivity | split; [reflexivity | split; [reflexivity|]]].
   destruct I as [Q S]. split; [reflexivity | exact S].
 Qed.
+
+(* ---------- C07 on the reference semantics: done means no strand, and done is final ---------- *)
+Lemma rdone_no_strands : forall c, rdone c = true -> strands_rc c = [].
+Proof.
+  fix IH 1. intros c. destruct c as [b|a b|l|k a|k a]; cbn [rdone strands_rc]; intros D; try (apply IH; exact D); try discriminate.
+  - destruct (b_strands b); [reflexivity | discriminate].
+  - induction l as [|x l IHl]; cbn [map concat forallb] in *; [reflexivity|].
+    apply andb_prop in D as [D1 D2]. rewrite (IH x D1), (IHl D2). reflexivity.
+Qed.
+Lemma no_strands_deliver rid v : forall c, strands_rc c = [] -> deliver rid v c = (false, c).
+Proof.
+  fix IH 1. intros c. destruct c as [b|a b|l|k a|k a]; cbn [strands_rc deliver]; intros E.
+  - destruct b as [ss nx fin]. cbn [b_strands] in *. subst ss. reflexivity.
+  - rewrite (IH a E). reflexivity.
+  - assert (A : map (deliver rid v) l = map (fun x => (false, x)) l).
+    { induction l as [|x l IHl]; cbn [map concat] in *; [reflexivity|].
+      apply app_eq_nil in E as [E1 E2]. rewrite (IH x E1), (IHl E2). reflexivity. }
+    rewrite A, !map_map. cbn [fst snd]. rewrite map_id. f_equal.
+    clear. induction l as [|x l IHl]; [reflexivity | exact IHl].
+  - rewrite (IH a E). reflexivity.
+  - rewrite (IH a E). reflexivity.
+Qed.
+Lemma no_strands_dropreq rid : forall c, strands_rc c = [] -> dropreq rid c = c.
+Proof.
+  fix IH 1. intros c. destruct c as [b|a b|l|k a|k a]; cbn [strands_rc dropreq]; intros E.
+  - destruct b as [ss nx fin]. cbn [b_strands] in *. subst ss. reflexivity.
+  - rewrite (IH a E). reflexivity.
+  - f_equal. induction l as [|x l IHl]; cbn [map concat] in *; [reflexivity|].
+    apply app_eq_nil in E as [E1 E2]. rewrite (IH x E1), (IHl E2). reflexivity.
+  - rewrite (IH a E). reflexivity.
+  - rewrite (IH a E). reflexivity.
+Qed.
+(* fuel that certainly suffices to walk a residual term once *)
+Fixpoint rdepth (c : rc) : nat :=
+  match c with
+  | RBag _ => 1
+  | RSeq a _ => S (rdepth a)
+  | RPar l => S (list_sum (map rdepth l))
+  | RMapEff _ a | RMapEv _ a => S (rdepth a)
+  end.
+Lemma rdone_run : forall c, rdone c = true -> forall g en n, rdepth c <= g -> run g en c n = Some (c, n, ro0).
+Proof.
+  fix IH 1. intros c. destruct c as [b|a b|l|k a|k a]; cbn [rdone rdepth]; intros D g en n L; try discriminate;
+    (destruct g as [|g]; [lia|]); cbn [run].
+  - destruct SF_S as [s ->]. cbn [run_bag]. destruct (b_strands b) eqn:EB; [|discriminate].
+    cbn [pick]. reflexivity.
+  - match goal with |- match ?gg l n with _ => _ end = _ => set (go := gg) end.
+    assert (G : forall l, forallb rdone l = true -> list_sum (map rdepth l) <= g -> forall m, go l m = Some (l, m, ro0)).
+    { clear D L. induction l0 as [|x l0 IHl]; intros D L m; cbn; [reflexivity|].
+      cbn [forallb] in D. apply andb_prop in D as [D1 D2]. cbn [map] in L. rewrite ls_cons in L.
+      rewrite (IH x D1 g en m) by lia. fold go. rewrite (IHl D2) by lia. reflexivity. }
+    rewrite (G l D) by lia. reflexivity.
+  - rewrite (IH a D g en n) by lia. rewrite ro_map_eff0. reflexivity.
+  - rewrite (IH a D g en n) by lia. rewrite ro_map_ev0. reflexivity.
+Qed.
+
+(* a command that is done has no strand; no answer is taken by it, no drop changes it, running it again
+   produces nothing: it stays done and silent whatever the shell does next *)
+Theorem done_is_final c : rdone c = true ->
+  strands_rc c = [] /\
+  (forall rid v, deliver rid v c = (false, c)) /\
+  (forall rid, dropreq rid c = c) /\
+  (forall g en n, rdepth c <= g -> run g en c n = Some (c, n, ro0)).
+Proof.
+  intros D. pose proof (rdone_no_strands c D) as E.
+  split; [exact E | split; [intros; apply no_strands_deliver; exact E | split; [intros; apply no_strands_dropreq; exact E | apply rdone_run; exact D]]].
+Qed.
